@@ -122,7 +122,9 @@ impl KRange {
             }
         };
 
-        let end = if inclusive { end + 1 } else { end };
+        // An inclusive range that ends at i64::MAX can't be expressed as a non-inclusive range,
+        // the end then stays at i64::MAX rather than overflowing.
+        let end = if inclusive { end.saturating_add(1) } else { end };
         start..end.max(start)
     }
 
@@ -167,7 +169,7 @@ impl KRange {
     pub fn size(&self) -> Option<usize> {
         if self.is_bounded() {
             let range = self.as_bounded_range();
-            Some(((range.end).max(range.start) - range.start) as usize)
+            Some((range.end).max(range.start).abs_diff(range.start) as usize)
         } else {
             None
         }
